@@ -268,6 +268,11 @@ where
             }
         }
     }
+    for v in env.qviols.iter_mut() {
+        if !v.tags.contains(&"C19") {
+            v.tags = &["C19", "C11"];
+        }
+    }
     // violations of the cursor of one iterator caused by another are independence violations
     if let Some(v) = env.viol.as_mut() {
         if !v.tags.contains(&"C19") {
